@@ -50,6 +50,9 @@ func parseSparseShares(shares []Share) (blobs []*Blob, err error) {
 		}
 	}
 	for _, sequence := range sequences {
+		if uint64(sequence.sequenceLen) > uint64(len(sequence.data)) {
+			return nil, fmt.Errorf("sequence length %d exceeds the %d bytes of data present in the shares", sequence.sequenceLen, len(sequence.data))
+		}
 		// trim any padding from the end of the sequence
 		sequence.data = sequence.data[:sequence.sequenceLen]
 		blob, err := NewBlob(sequence.ns, sequence.data, sequence.shareVersion, sequence.signer)
